@@ -728,7 +728,9 @@ func uniq(xs []string) []string {
 }
 
 // Hand-written witnesses (run first): the three defects of DESIGN §7 row 9 and the further
-// exclude families found while building the check.
+// exclude families found while building the check.  9a, 9b, 9d, 9f, "dropped-extension" and
+// "included-extension" are repaired in /repo: their witnesses stay as regression inputs (a
+// regression is a real failure).
 type witness struct {
 	name     string
 	target   map[string]string
@@ -791,4 +793,36 @@ var witnesses = []witness{
 				"// c:A\nmessage A {\n  option (o.mo) = { m: { key: \"k\" value: { type_url: \"example.com/types/q.Q1\" } } in: { a: { [type.googleprod.com/q.Q2]: {} } } };\n}\n// c:B\nmessage B {}\n",
 			"b.proto": "syntax = \"proto3\"; package q;\n// c:Q1\nmessage Q1 {}\n// c:Q2\nmessage Q2 {}\n// c:Q3\nmessage Q3 {}\n"},
 		exclude: []string{"p.B", "q.Q3"}},
+	// Regression inputs of the two repaired families (fix: oneof indexes follow dropped oneofs; fix:
+	// an extension dropped for its value type does not pull in its extendee).
+	{name: "9d-oneof-index-proto3-optional",
+		target: map[string]string{
+			"a.proto": "syntax = \"proto3\"; package p;\n// c:X\nmessage X {}\n// c:Y\nmessage Y {}\n// c:A\nmessage A {\n  // c:x\n  optional X x = 1;\n  // c:y\n  optional Y y = 2;\n  int32 k = 3;\n  // c:o\n  oneof o { int32 a = 4; Y b = 5; }\n  // c:z\n  optional int32 z = 6;\n}\n"},
+		include: []string{"p.A"}, exclude: []string{"p.X"}},
+	{name: "9d-oneof-index-middle-nested",
+		target: map[string]string{
+			"a.proto": "syntax = \"proto3\"; package p;\nmessage X {}\nmessage Y {}\nmessage Outer {\n  message A {\n    // c:first\n    oneof first { Y f1 = 1; int32 f2 = 2; }\n    // c:second\n    oneof second { X s1 = 3; X s2 = 4; }\n    // c:third\n    oneof third { Y t1 = 5; }\n    // c:fourth\n    oneof fourth { X u1 = 6; }\n    // c:fifth\n    oneof fifth { string v1 = 7; Y v2 = 8; }\n    int32 plain = 9;\n  }\n  A a = 1;\n}\n"},
+		exclude: []string{"p.X"}},
+	{name: "dropped-extension-extendee-import",
+		target: map[string]string{
+			"x/f4.proto": "syntax = \"proto2\"; package p; import \"y/f1.proto\";\nmessage NE {}\nmessage K { optional int32 k = 1; }\nextend M7 { optional NE x89 = 189; }\n",
+			"y/f1.proto": "syntax = \"proto2\"; package p;\nmessage M7 { extensions 100 to 200; }\n"},
+		exclude: []string{"p.NE"}},
+	{name: "dropped-extension-extendee-import-include",
+		target: map[string]string{
+			"x/f4.proto": "syntax = \"proto2\"; package p; import \"y/f1.proto\";\nmessage NE {}\nmessage K { optional int32 k = 1; }\nextend M7 { optional NE x89 = 189; }\n",
+			"y/f1.proto": "syntax = \"proto2\"; package p;\nmessage M7 { extensions 100 to 200; }\n"},
+		include: []string{"p.K", "p.M7"}, exclude: []string{"p.NE"}},
+	// fix: including an extension by name whose value type is excluded is an error (it used to
+	// succeed without the extension)
+	{name: "included-extension-excluded-value-type",
+		target: map[string]string{
+			"x/f4.proto": "syntax = \"proto2\"; package p; import \"y/f1.proto\";\nmessage NE {}\nmessage K { optional int32 k = 1; }\nextend M7 { optional NE x89 = 189; optional K x90 = 190; }\n",
+			"y/f1.proto": "syntax = \"proto2\"; package p;\nmessage M7 { extensions 100 to 200; }\n"},
+		include: []string{"p.x89"}, exclude: []string{"p.NE"}},
+	{name: "included-extension-kept",
+		target: map[string]string{
+			"x/f4.proto": "syntax = \"proto2\"; package p; import \"y/f1.proto\";\nmessage NE {}\nmessage K { optional int32 k = 1; }\nextend M7 { optional NE x89 = 189; optional K x90 = 190; }\n",
+			"y/f1.proto": "syntax = \"proto2\"; package p;\nmessage M7 { extensions 100 to 200; }\n"},
+		include: []string{"p.x90"}, exclude: []string{"p.NE"}},
 }
